@@ -21,7 +21,8 @@ RULE = ('Parameter vectors for the bundled builders: alpha1, alpha2 in (0.05,0.9
         'calibration, the G path has >= 2 distinct values and initial wealth is non-zero. Distinct: sha1 of the spec.')
 ASSUMPTIONS = [
     'tolerance of the comparison: 1e-6*max(1,|v|)/(1-q) with q = alpha1*(1-theta) for the framework models (solver '
-    'tolerance 1e-9, errors propagate through wealth); 0.002*(k+1)/(1-q) for the hand-coded model (its stop rule is 0.001)',
+    'tolerance 1e-9, errors propagate through wealth); 0.002*(k+1)/(1-q) for the hand-coded model (its stop rule is 0.001), '
+    '0.02*(k+1)/(1-q) for its RunMethod2 (whole-vector iteration, summed stop rule 0.001; domain alpha1*(1-theta) <= 0.5)',
     'ConvergenceError is counted as rejected (outside the solver\'s practical convergence region)',
 ]
 
@@ -217,8 +218,49 @@ def run_hand(spec):
     return {'nontrivial': nt, 'labels': ['hand-coded']}
 
 
+@st.composite
+def method2_case(draw):
+    spec = draw(params('SIM'))
+    # RunMethod2 iterates the whole vector (Jacobi) with a cap of 100 sweeps: keep alpha1*(1-theta) <= 0.5
+    from fractions import Fraction as F
+    if F(spec['alpha1']) * (1 - F(spec['theta'])) > F(1, 2):
+        spec['alpha1'] = dn(int(F(spec['alpha1']) * 10 ** spec['places']) // 2, spec['places'])
+    return spec
+
+
+def run_method2(spec):
+    from sfc_models.gl_book.model_SIM_iterative import ModelSIMiterative
+    m = ModelSIMiterative()
+    m.theta = float(spec['theta'])
+    m.alpha1 = float(spec['alpha1'])
+    m.alpha2 = float(spec['alpha2'])
+    m.H = [float(spec['V0'])]
+    m.G = [float(g) for g in spec['G']]
+    try:
+        for _ in range(spec['T']):
+            m.RunMethod2()
+    except Exception as ex:
+        if 'No convergence' in str(ex):
+            raise Reject('RunMethod2 did not converge within its own cap')
+        raise Violation('C09/hand-coded-fails', 'ModelSIMiterative.RunMethod2 fails: %s: %s' % (type(ex).__name__, ex))
+    ref = closed_form(spec)
+    q = float(Fraction(spec['alpha1']) * (1 - Fraction(spec['theta'])))
+    for attr, key in (('Y', 'Y'), ('YD', 'YD'), ('tax', 'T'), ('C', 'C'), ('H', 'V')):
+        series = getattr(m, attr)
+        if len(series) != spec['T'] + 1:
+            raise Violation('C09/hand-coded-length', 'RunMethod2: %s has %d points for %d periods' % (attr, len(series), spec['T']))
+        for k in range(1, spec['T'] + 1):
+            want = float(ref[key][k])
+            bound = 0.02 * (k + 1) / (1.0 - q)
+            if not abs(series[k] - want) <= bound:
+                raise Violation('C09/hand-coded-differs', 'ModelSIMiterative.RunMethod2: %s[%d] = %r, closed form %r (bound %.3g)' %
+                                (attr, k, series[k], want, bound))
+    return {'nontrivial': len(set(spec['G'])) >= 2 and float(spec['V0']) != 0.0, 'labels': ['method2']}
+
+
 FAMILIES = [
     Family('framework-models', fw_case, run_framework, quick=640, thorough=10000),
+    Family('hand-coded-SIM-method2', method2_case, run_method2, quick=800, thorough=20000),
     Family('hand-coded-SIM', hand_case, run_hand, quick=1600, thorough=40000),
 ]
 
